@@ -17,7 +17,7 @@ RULE = (
     "member kinds {Option('A'), Option('S.X'), Option('B', 2), dataset reading C, Option('D', 1) >> f, constant, "
     
     "Option('S.W') (second key of the same section), Option('S.Z.K', 0) (deeper key of that section), brace-bearing string constant, "
-    "mutable list constant, whole-section Option (re-ordered section), member inherited from a plain base class}; "
+    "mutable list constant, whole-section Option (re-ordered section), whole section S next to members reading its entries, member inherited from a plain base class}; the dictionary handed to the class is changed by the caller right after instantiation; "
     "all classes with 1..3 distinct kinds (thorough: 1..4); plus a dataset class derived "
     "from another dataset class in three usage orders; dictionaries = product of the "
     "keys the members mention (+ one junk key, + sibling S.Y); for every dictionary: attributes, validate/keys/"
@@ -26,7 +26,7 @@ RULE = (
 )
 ASSUMPTIONS = ["restrict() of labmc/optspace.py defines 'restricted to the keys the class reports'"]
 
-KINDS = ["flat", "dotted", "dotted2", "deep", "defaulted", "ds", "applied", "const", "strconst", "listconst", "wholesect", "inherited"]
+KINDS = ["flat", "dotted", "dotted2", "deep", "defaulted", "ds", "applied", "const", "strconst", "listconst", "wholesect", "sectS", "inherited"]
 SPEC = {
     "flat": [("A", [1, 2])],
     "dotted": [("S.X", [1, 2]), ("S.Y", [ABSENT, 9])],
@@ -39,6 +39,8 @@ SPEC = {
     "strconst": [],
     "listconst": [],
     "wholesect": [("T", [{"P": 1, "Q": 2}, {"Q": 2, "P": 1}, {"P": 1, "Q": 3}])],
+    # the whole section S, next to members that read single entries of it
+    "sectS": [("S.Y", [ABSENT, 9])],
     "inherited": [("E", [ABSENT, 6])],
 }
 
@@ -66,6 +68,7 @@ def build_class(kinds):
         "strconst": "{A}/{S.X}.csv",
         "listconst": ["raw", {"k": 1}],
         "wholesect": Option("T"),
+        "sectS": Option("S", {"none": 0}),
     }
     ns = {"__annotations__": {}}
     bases = ()
@@ -119,7 +122,11 @@ def check_class(kinds, res):
     insts = []
     for o in dicts:
         res["evaluations"] += 1
-        inst = observe(None, lambda: cls(copy.deepcopy(o)), materialise=False)
+        # the caller keeps using (and changing) the dictionary it passed: the instance was built from what
+        # the dictionary held at that moment
+        handed = copy.deepcopy(o)
+        inst = observe(None, lambda: cls(handed), materialise=False)
+        _wreck(handed)
         via_eval = observe(None, lambda: cls.evaluate(copy.deepcopy(o)), materialise=False)
         if not inst.ok:
             fail("instantiation-failed", repr(inst), o)
@@ -153,10 +160,14 @@ def check_class(kinds, res):
             fail("validate-failed", repr(va), o)
         r = restrict(o, union_keys)
         want_repr = f"DC({_ordered(r, union_keys)!r})"
-        if repr(obj) != want_repr:
-            fail("repr", f"{repr(obj)} vs {want_repr}", o)
-        if via_eval.ok and not (via_eval.value == obj):
-            fail("evaluate-differs-from-instantiation", "cls.evaluate(o) != cls(o)", o)
+        got_repr = observe(None, lambda: repr(obj), materialise=False)
+        if not got_repr.ok:
+            fail("repr-raised", repr(got_repr), o)
+        elif got_repr.value != want_repr:
+            fail("repr", f"{got_repr.value} vs {want_repr}", o)
+        same = observe(None, lambda: via_eval.value == obj, materialise=False) if via_eval.ok else None
+        if same is not None and (not same.ok or not same.value):
+            fail("evaluate-differs-from-instantiation", f"cls.evaluate(o) == cls(o) gives {same!r}", o)
         insts.append((o, obj, freeze(r)))
         # an instance owns its values: changing them in place must not leak into the class or other instances
         for k in members:
@@ -169,10 +180,25 @@ def check_class(kinds, res):
         res["pairs"] += 1
         if freeze(oa) != freeze(ob):
             res["nontrivial"] += 1
-        eq = a == b
+        eqo = observe(None, lambda: a == b, materialise=False)
+        if not eqo.ok:
+            fail("equality-raised", repr(eqo), (oa, ob))
+            continue
+        eq = eqo.value
         if eq != (ra == rb):
             fail("equality", f"{oa!r} vs {ob!r}: == is {eq}, restricted dictionaries {'equal' if ra == rb else 'differ'}", (oa, ob))
     return fails
+
+
+def _wreck(d):
+    """the caller's later use of its own dictionary (a parameter sweep re-using one dict): top-level entries are
+    re-assigned to new values, removed and added.  Values are replaced, never modified in place: whether an
+    instance may share a nested section object with the caller is not something the property settles."""
+    for k in list(d):
+        d[k] = ("later", repr(d[k]))
+    for k in list(d)[::2]:
+        del d[k]
+    d["added-later"] = 1
 
 
 def check_derived(order, res):
